@@ -148,7 +148,9 @@ fn sse_body(k: usize) {
 /// the same contract on ENUMERATED CONCRETE message sequences (the symbolic shapes above need 20+ min each under CBMC and are not registered):
 /// empty message, single line, embedded LF, lone LF, trailing LF, two messages, empty then non-empty, field-like content, CR, CRLF, lone CR
 fn sse_concrete_body(k: usize) {
-    const SEQS: [&[&str]; 12] = [&[""], &["a"], &["a\nb"], &["\n"], &["ab\n"], &["a", "b"], &["", "x"], &["data: x"], &["a\rb"], &["a\r\nb"], &["\r"], &["x\revent: y"]];
+    const SEQS: [&[&str]; 15] = [&[""], &["a"], &["a\nb"], &["\n"], &["ab\n"], &["a", "b"], &["", "x"], &["data: x"], &["a\rb"], &["a\r\nb"], &["\r"], &["x\revent: y"],
+        // event sizes 15, 16, 17: around the first chunk-size digit boundary (0xf / 0x10 / 0x11)
+        &["abcdefg"], &["abcdefgh", "z"], &["abcdefghi"]];
     let msgs = SEQS[k];
     let mut wire_buf = [0u8; 96]; let mut wl = 0usize;
     let mut m = 0;
@@ -178,4 +180,4 @@ fn sse_concrete_body(k: usize) {
         m += 1;
     }
 }
-//@chunks 12 c17_sse_framing_concrete sse_concrete_body #[kani::proof] #[kani::unwind(60)]
+//@chunks 15 c17_sse_framing_concrete sse_concrete_body #[kani::proof] #[kani::unwind(60)]
